@@ -53,7 +53,11 @@ POOLS = {
     'vtype': {'valid': [None, 'C:ValueError', 'C:UserViolation', 'C:UserWarningV', 'C:RuntimeWarning'],
               'alike': [], 'invalid': ['C:int', 'x', 'I:ValueError', 0]},
     'skip': {'valid': ['T:', 'T:aa', 'T:aa,bb', 'T:bb,aa'], 'alike': ['L:aa', 'L:'], 'invalid': ['T:1x', 'N:1', 5]},
-    'overrides': {'valid': ['F:', 'F:int=float', 'F:str=bytes'], 'alike': ['D:int=float', 'D:'], 'invalid': ['x', None]},
+    # Tf / Tc: exactly what the numeric tower maps float / complex to; Xf / Xc: something else (conflicts with the tower option)
+    'overrides': {'valid': ['F:', 'F:int=float', 'F:str=bytes', 'F:float=Tf', 'F:complex=Tc', 'F:float=Tf,complex=Tc', 'F:float=Xf',
+                            'F:complex=Xc', 'F:float=Tf,complex=Xc', 'F:float=Xf,complex=Tc', 'F:int=float,float=Tf,complex=Xc',
+                            'F:float=Xf,complex=Xc'],
+                  'alike': ['D:int=float', 'D:'], 'invalid': ['x', None]},
     'wcls': {'valid': [None, 'C:UserWarningV', 'C:RuntimeWarning'], 'alike': [], 'invalid': ['C:ValueError', 'C:int', 'x']},
 }
 OPT_POOL = {
@@ -91,7 +95,10 @@ def _value(tok):
             for item in tok[2:].split(','):
                 if item:
                     a, b = item.split('=')
-                    d[{'int': int, 'str': str}[a]] = {'float': float, 'bytes': bytes}[b]
+                    import typing
+                    d[{'int': int, 'str': str, 'float': float, 'complex': complex}[a]] = {
+                        'float': float, 'bytes': bytes, 'Tf': typing.Union[float, int], 'Tc': typing.Union[complex, float, int],
+                        'Xf': typing.Union[float, str], 'Xc': typing.Union[complex, str]}[b]
             return BeartypeHintOverrides(d) if tok.startswith('F:') else d
     return tok
 
@@ -122,7 +129,9 @@ def model_validate(kw, env_color):
             verdict = 'either'
     if kw.get('is_pep484_tower') is True:
         ov = kw.get('hint_overrides')
-        # float/complex keys are never generated, so no conflict is possible
+        # documented: an override of float / complex that differs from what the tower maps it to conflicts with the tower
+        if isinstance(ov, str) and ov.startswith('F:') and ('=Xf' in ov or '=Xc' in ov):
+            return 'invalid'
     return verdict
 
 
